@@ -22,7 +22,8 @@ for m in fuel_asm fuel_compression fuel_crypto fuel_derive fuel_merkle fuel_merk
 done
 case "$CFG" in
   A) FLAGS="--workspace --lib";;
-  B) FLAGS="-p fuel-tx -p fuel-compression -p fuel-vm --lib --features fuel-tx/da-compression,fuel-vm/da-compression";;
+  B) FLAGS="--manifest-path fuel-vm/Cargo.toml --lib --features da-compression";;
+  T) FLAGS="--manifest-path fuel-vm/Cargo.toml --lib --features test-helpers";;
   *) echo "unknown cfg $CFG" >&2; exit 3;;
 esac
 cd "$REPO" || exit 3
